@@ -11,7 +11,13 @@ RULE = ("documents generated as text from a spec: 0-4 @string definitions (befor
         "operations: resolve alone, default stack (real parse_string), swapped order; plus a two-call stream (oracle only): "
         "some of the @string definitions are parsed by a first default parse_string call and the rest of the document by a second "
         "parse_string(..., library=first) call, so that references are resolved against strings whose enclosing was already "
-        "removed. distinct = distinct (text, operation); "
+        "removed. Source layout: about half of the documents (and every document of the bounded `layout` grid: keyword spelling x "
+        "gap before the `{` of the @string x gap before the `{` of the entry) carry a per-block layout instead of one of the four "
+        "fixed styles: the keyword in any letter case, blanks / tabs between `@type` and `{` (for @string, entries, @comment and "
+        "@preamble alike), and independent whitespace (nothing, blanks, tabs, LF, CRLF, CR, form feed, vertical tab, U+0085, "
+        "U+00A0, U+2028, blank lines) before and after every key, `=`, value, `,` and before the closing `}`, with or without a "
+        "trailing comma, entries without fields included; the oracle expectation depends on the spec only, never on the layout. "
+        "distinct = distinct (text, operation); "
         "non-trivial = some field value is a bare identifier or an enclosed look-alike of a defined key")
 TRUSTED = ["the splitter is not modelled in this engine: the model starts from the split library, the Python oracle checks "
            "the property on parse_string(text) with the default stack against the document spec"]
@@ -21,6 +27,40 @@ SKEYS = ["abc", "Abc", "ABC", "jan", "x1", "clé"]
 STRING_SRCS = ['"Value A"', "{Value {B}}", "1234", "abc", '"p" # abc', '"{q}"', "{}", '""', '"a" # "b"', "{x} # {y}", "{ sp }",
                "", " ", '"0"', "{ }"]            # nothing after the `=`: the content is the empty string
 FNAMES = ["title", "author", "journal", "month", "year", "note"]
+# source layout (the dialect: only blanks and tabs may stand between `@type` and `{`; keys and values are stripped of any
+# whitespace, line breaks included)
+STRING_WORDS = ["@string", "@String", "@STRING", "@sTRing"]
+GAPS = ["", " ", "  ", "\t", " \t", "\t ", "      ", "\t\t"]
+WS = ["", "", "", " ", " ", " ", "  ", "\t", "\n", "\n  ", "\n\t", "\r\n", " \n ", "\n\n", "\r", "\f", "\v", "\u00a0", "\u0085", "\u2028",
+      " \t \n"]
+RAW_TEXTS = ["@comment{abc}", "abc", "@article{bad, title = abc", "@preamble{abc}", "% abc = x",
+             "@comment {abc}", "@Comment\t{abc = x}", "@preamble {abc}", "@PREAMBLE \t{\"abc\" # abc}", "@string {abc}", "@ {abc, title = abc}"]
+
+
+def ws(rng):
+    return rng.choice(WS)
+
+
+def string_layout(rng, word=None, gap=None):
+    return {"word": rng.choice(STRING_WORDS) if word is None else word, "gap": rng.choice(GAPS) if gap is None else gap,
+            "k0": ws(rng), "k1": ws(rng), "v0": ws(rng), "v1": ws(rng)}
+
+
+def entry_layout(rng, nfields, gap=None):
+    return {"gap": rng.choice(GAPS) if gap is None else gap, "k0": ws(rng), "k1": ws(rng),
+            "f": [[ws(rng), ws(rng), ws(rng), ws(rng)] for _ in range(nfields)],
+            "comma": rng.random() < 0.5,          # a comma after the last field (after the key, when there are no fields)
+            "c1": ws(rng), "end": ws(rng)}
+
+
+def add_layout(doc, rng):
+    """give every @string and entry of the document its own source layout"""
+    for it in doc["items"]:
+        if it["t"] == "string":
+            it["lay"] = string_layout(rng)
+        elif it["t"] == "entry":
+            it["lay"] = entry_layout(rng, len(it["fields"]))
+    return doc
 
 
 def gen_doc(rng):
@@ -36,7 +76,7 @@ def gen_doc(rng):
         else:
             key = "e%d" % i
         ekeys.append(key)
-        nf = rng.choice([1, 2, 2, 3])
+        nf = rng.choice([1, 2, 2, 3] * 4 + [0])                 # no fields at all: `@article{key}` / `@article{key,}`
         names = rng.sample(FNAMES, nf)
         if nf >= 2 and rng.random() < 0.06:
             names[1] = names[0]                                   # duplicate field name -> DuplicateFieldKeyBlock
@@ -75,14 +115,36 @@ def gen_doc(rng):
         items = strings + ents
         rng.shuffle(items)
     if rng.random() < 0.15:
-        items.insert(rng.randint(0, len(items)), {"t": "raw", "text": rng.choice(["@comment{abc}", "abc", "@article{bad, title = abc",
-                                                                                   "@preamble{abc}", "% abc = x"])})
+        items.insert(rng.randint(0, len(items)), {"t": "raw", "text": rng.choice(RAW_TEXTS)})
     # two-call stream: the definitions marked "early" are parsed by a first parse_string call, everything else by a second
     # call on the library of the first (the mark is ignored by the single-call operations)
     for it in strings:
         if rng.random() < 0.6:
             it["early"] = True
-    return {"items": items, "style": rng.randint(0, 3)}
+    doc = {"items": items, "style": rng.randint(0, 3)}
+    if rng.random() < 0.5:
+        add_layout(doc, rng)
+    return doc
+
+
+def grid_docs(rng):
+    """bounded grid: every keyword spelling x gap before the `{` of the @string x gap before the `{` of the entry, the rest of
+    the layout and the small document around it drawn at random"""
+    for word in STRING_WORDS:
+        for sgap in GAPS:
+            for egap in GAPS:
+                k, other = rng.sample(SKEYS, 2)
+                strings = [{"t": "string", "key": k, "src": rng.choice(STRING_SRCS), "lay": string_layout(rng, word, sgap)}]
+                if rng.random() < 0.3:
+                    strings.append({"t": "string", "key": rng.choice([k, other]), "src": rng.choice(STRING_SRCS),
+                                    "lay": string_layout(rng)})
+                names = rng.sample(FNAMES, rng.choice([0, 1, 2, 3, 3]))
+                srcs = [k, "{%s}" % k, '"%s"' % k, k.swapcase(), "%s # %s" % (k, k), other, "12"]
+                fields = [[n, k if i == 0 else rng.choice(srcs)] for i, n in enumerate(names)]
+                ent = {"t": "entry", "type": rng.choice(["article", "Book", "MISC"]), "key": rng.choice(["e0", "a:b", "k-1"]),
+                       "fields": fields, "lay": entry_layout(rng, len(fields), egap)}
+                items = strings + [ent] if rng.random() < 0.5 else [ent] + strings
+                yield {"items": items, "style": rng.randint(0, 3)}
 
 
 def two_calls(doc):
@@ -96,7 +158,18 @@ def render(doc):
     st = doc["style"]
     out = []
     for it in doc["items"]:
-        if it["t"] == "string":
+        lay = it.get("lay")
+        if it["t"] == "string" and lay:
+            out.append("%s%s{%s%s%s=%s%s%s}" % (lay["word"], lay["gap"], lay["k0"], it["key"], lay["k1"], lay["v0"], it["src"], lay["v1"]))
+        elif it["t"] == "entry" and lay:
+            body = ",".join("%s%s%s=%s%s%s" % (a, n, b, c, src, d) for (n, src), (a, b, c, d) in zip(it["fields"], lay["f"]))
+            if it["fields"]:
+                body = "," + body
+            out.append("@%s%s{%s%s%s%s%s%s}" % (it["type"], lay["gap"], lay["k0"], it["key"], lay["k1"], body,
+                                                 "," + lay["c1"] if lay["comma"] else "", lay["end"]))
+        elif it["t"] == "entry" and not it["fields"]:
+            out.append("@%s{%s}" % (it["type"], it["key"]))
+        elif it["t"] == "string":
             out.append(["@string{%s = %s}", "@STRING{ %s=%s }", "@String{%s =  %s}", "@string{%s = %s}"][st] % (it["key"], it["src"]))
         elif it["t"] == "entry":
             sep = [",\n  ", ", ", ",\n\t", ",\n"][st]
@@ -117,6 +190,10 @@ def generate(rng, tier):
             cases.append({"stream": {110: "resolve", 111: "default", 112: "swapped"}[op], "input": {"doc": doc, "op": op}})
         if any(it["t"] == "string" and it.get("early") for it in doc["items"]):
             cases.append({"stream": "two-call", "input": {"doc": doc, "op": 113}})
+    for doc in grid_docs(rng):
+        cases.append({"stream": "layout", "input": {"doc": doc, "op": 111}})
+        if tier != "quick":
+            cases.append({"stream": "layout", "input": {"doc": doc, "op": 110}})
     return cases
 
 
@@ -130,7 +207,33 @@ def shrink(case):
         if it["t"] == "entry" and len(it["fields"]) > 1:
             for j in range(len(it["fields"])):
                 t = dict(it, fields=it["fields"][:j] + it["fields"][j + 1:])
+                if "lay" in it:
+                    t["lay"] = dict(it["lay"], f=it["lay"]["f"][:j] + it["lay"]["f"][j + 1:])
                 yield {"stream": case["stream"], "input": dict(inp, doc=dict(inp["doc"], items=items[:i] + [t] + items[i + 1:]))}
+    # plainer layouts: one whitespace position (or the keyword) at a time
+    for i, it in enumerate(items):
+        lay = it.get("lay")
+        if not lay:
+            continue
+        plain = []
+        for name, v in lay.items():
+            if name == "f":
+                for j, four in enumerate(v):
+                    for q in range(4):
+                        if four[q] != "":
+                            plain.append(dict(lay, f=v[:j] + [four[:q] + [""] + four[q + 1:]] + v[j + 1:]))
+            elif name == "word":
+                if v != "@string":
+                    plain.append(dict(lay, word="@string"))
+            elif name == "comma":
+                if v:
+                    plain.append(dict(lay, comma=False))
+            elif v != "":
+                plain.append(dict(lay, **{name: ""}))
+                if len(v) > 1:
+                    plain.append(dict(lay, **{name: v[0]}))
+        for l2 in plain:
+            yield {"stream": case["stream"], "input": dict(inp, doc=dict(inp["doc"], items=items[:i] + [dict(it, lay=l2)] + items[i + 1:]))}
 
 
 # ---------------------------------------------------------------- the property, from the document spec
@@ -262,6 +365,12 @@ def impl(case):
     tags = []
     if op == 111:
         ok, detail = oracle_default(doc, lib)
+        if ok:
+            # "the @string blocks themselves stay in the library unchanged": the same blocks, source text and place as split
+            got = [(type(s).__name__, s.key, s.raw, s.start_line) for s in lib.strings]
+            want = [(type(s).__name__, s.key, s.raw, s.start_line) for s in split0.strings]
+            if got != want:
+                ok, detail = False, "the @string blocks after default parsing are %r, as split they were %r" % (got, want)
         rec["oracle"] = {"ok": ok, "detail": detail + ("" if ok else " in document %r" % text)}
         tags.append("resolved-some" if any("ResolveStringReferences" in e.parser_metadata for e in lib.entries) else "resolved-none")
     elif op == 110:
